@@ -106,26 +106,46 @@ func unconditionalAfter(ins ssa.Instruction, cond ssa.Value) bool {
 	return true
 }
 
-func isExitHookClosure(P *Program, f *ssa.Function) bool {
-	// f is an anonymous function whose closure value is passed to (*base.SentinelEntry).WhenExit
-	if f.Parent() == nil {
-		return false
-	}
-	whenExit := P.Func("core/base.(*SentinelEntry).WhenExit")
-	found := false
-	eachInstr(f.Parent(), func(ins ssa.Instruction) {
-		ci, ok := ins.(ssa.CallInstruction)
-		if !ok || !isStaticCallTo(ci, whenExit) {
-			return
+// hookTargets: the functions that run when the function value v is called: the closure's function itself, and for a
+// bound method value (b.method) the method behind the synthetic wrapper.
+func hookTargets(v ssa.Value) []*ssa.Function {
+	var out []*ssa.Function
+	switch x := stripConv(v).(type) {
+	case *ssa.MakeClosure:
+		fn, _ := x.Fn.(*ssa.Function)
+		if fn == nil {
+			return nil
 		}
-		for _, a := range ci.Common().Args {
-			a = stripConv(a)
-			if mc, ok := a.(*ssa.MakeClosure); ok && mc.Fn == f {
-				found = true
+		out = append(out, fn)
+		if fn.Synthetic != "" {
+			for _, ci := range callsIn(fn) {
+				if cal := ci.Common().StaticCallee(); cal != nil {
+					out = append(out, cal)
+				}
 			}
 		}
-	})
-	return found
+	case *ssa.Function:
+		out = append(out, x)
+	}
+	return out
+}
+
+func isExitHookClosure(P *Program, f *ssa.Function) bool {
+	// f is a function whose value (closure literal, or bound method value) is passed to (*base.SentinelEntry).WhenExit
+	whenExit := P.Func("core/base.(*SentinelEntry).WhenExit")
+	if whenExit == nil {
+		return false
+	}
+	for _, ci := range P.StaticCallers(whenExit) {
+		for _, a := range ci.Common().Args {
+			for _, t := range hookTargets(a) {
+				if t == f {
+					return true
+				}
+			}
+		}
+	}
+	return false
 }
 
 func init() {
@@ -815,25 +835,7 @@ func returnValueCases(r *ssa.Return, idx int) []retCase {
 	if idx >= len(r.Results) {
 		return nil
 	}
-	v := r.Results[idx]
-	if phi, ok := v.(*ssa.Phi); ok && phi.Block() == r.Block() {
-		var out []retCase
-		for i, e := range phi.Edges {
-			pred := phi.Block().Preds[i]
-			// facts: those of pred, plus the branch taken from pred to this block
-			var extra []Fact
-			if len(pred.Instrs) > 0 {
-				if ifi, ok := pred.Instrs[len(pred.Instrs)-1].(*ssa.If); ok && len(pred.Succs) == 2 && pred.Succs[0] != pred.Succs[1] {
-					t := pred.Succs[0] == phi.Block()
-					cnd, tt := stripNot(ifi.Cond, t)
-					extra = append(extra, Fact{Cond: cnd, Truth: tt, If: ifi})
-				}
-			}
-			out = append(out, retCase{val: e, block: pred, extra: extra})
-		}
-		return out
-	}
-	return []retCase{{val: v, block: r.Block()}}
+	return splitPhiCases(r.Results[idx], r.Block(), nil, 0)
 }
 
 func init() {
@@ -864,8 +866,8 @@ func init() {
 				// only hooks that can change the state
 				changes := false
 				for _, a := range ci.Common().Args {
-					if mc, ok := stripConv(a).(*ssa.MakeClosure); ok {
-						for _, c2 := range callsIn(mc.Fn.(*ssa.Function)) {
+					for _, t := range hookTargets(a) {
+						for _, c2 := range callsIn(t) {
 							if isStaticCallTo(c2, cas) {
 								changes = true
 							}
